@@ -386,7 +386,7 @@ Section Obj.
 
   Lemma push_from_cache_ext o c : Pre o c -> ExtP o c (push_from_cache E o c).
   Proof.
-    intros P. unfold push_from_cache. destruct (nb_block o =? 0); [apply Ext_refl, P|].
+    intros P. unfold push_from_cache. destruct (cache_replay_blocked o); [apply Ext_refl, P|].
     assert (H : List.rev (r_cache o) <> [] -> Live o).
     { intros H. apply Quiet_cache; [exact (proj1 P)|]. intros Hc. rewrite Hc in H. apply H. reflexivity. }
     pose proof (drain_cache_ext (List.rev (r_cache o)) o c P H) as K.
